@@ -80,4 +80,11 @@ var propSpecs = []PropSpec{
 		NotDecided:  "regex round trip through the problem matcher; caret placement; width computations; that the single-line output of shellcheck/pyflakes is single-line (assumption)",
 		Assumptions: append([]string{"messages of strconv, net/url, encoding/json, path.Match and text/scanner quote or do not echo their input; shellcheck/pyflakes messages are single-line"}, commonAssumptions...),
 	},
+	{
+		ID:          "C15",
+		Rules:       []string{"C15.ROOT", "C15.ABSJOIN", "C15.PURE", "C15.EXIT", "C15.PAT", "C20.ERR"},
+		Explanation: "Decides the structural clauses of filtering and exit status: (ROOT) the path handed to Config.PathConfigs comes from filepath.Rel(<project root>, ...) and the raw cwd-relative path is only used without a project or when Rel fails; (ABSJOIN) a path is joined to the working directory only under !filepath.IsAbs; (PURE) filterErrors mutates nothing, prints nothing, sorts nothing and returns its input or a slice built from the input's own elements in iteration order, consulting both pattern sets; (EXIT) the (condition -> constant) table of Command.Main's returns; (PAT) every ignore regexp is compiled from one element of the option list and matched against the message alone; (ERR, shared with C20) formatter errors are propagated by LintFiles, LintFile and Lint alike.",
+		NotDecided:  "glob and regexp matching semantics; how paths are spelled on the command line beyond the IsAbs/Rel structure",
+		Assumptions: commonAssumptions,
+	},
 }
